@@ -1,4 +1,5 @@
 """C02 — a registered system is the exact linear model of the receptor responses."""
+from bisect import bisect_left
 import numpy as np
 from common import F, rs, vs, ms, dyadic, close, call, as_given, err_kind
 from p01 import dom_text
@@ -86,6 +87,32 @@ def gen_signal_domain(rng, fdom):
     return "equal", fdom.copy()
 
 
+def gen_file_grids(rng, short):
+    """grids as they come out of files, tens to hundreds of points with values that are not dyadic: the filters on a regular nm grid
+    (np.arange(300, 701, 1.)-like with step 0.5/1/2/5, or np.linspace(lo, hi, n)), the spectra on the spectrometer's own regular grid
+    (np.linspace(a, b, n), or a + step*np.arange(n) with a two-decimal step), which starts/ends up to a tenth of the span before or after
+    the filters' grid. `short`: at most 48 points each (the cases that are also integrated exactly)."""
+    nmax = 49 if short else 421
+    def npts():
+        return int(round(float(np.exp(rng.uniform(np.log(20), np.log(nmax - 1))))))
+    fk = str(rng.choice(["arange", "linspace"]))
+    lo = float(rng.integers(280, 401))
+    n = npts()
+    if fk == "arange":
+        fdom = lo + float(rng.choice([0.5, 1.0, 2.0, 5.0])) * np.arange(n)
+    else:
+        fdom = np.linspace(lo, lo + float(rng.integers(100, 451)), n)
+    span = float(fdom[-1] - fdom[0])
+    a_ = float(np.floor(fdom[0] + rng.uniform(-0.1, 0.1) * span)); b_ = float(np.ceil(fdom[-1] + rng.uniform(-0.1, 0.15) * span))
+    sk = str(rng.choice(["linspace", "linspace", "arange"]))
+    m = npts()
+    if sk == "linspace":
+        sdom = np.linspace(a_, b_, m)
+    else:
+        sdom = a_ + max(0.01, round((b_ - a_) / (m - 1), 2)) * np.arange(m)
+    return "file-grid:filters %s, spectra %s" % (fk, sk), fdom, sdom
+
+
 def resample_exact(dom, arr, grid):
     """piecewise-linear interpolation of the rows of `arr` (given on the ascending grid `dom`) at the points of `grid`, zero
     outside [dom[0], dom[-1]] -- what 'equalising the domains' of filters and signals means -- evaluated in exact rationals"""
@@ -98,9 +125,7 @@ def resample_exact(dom, arr, grid):
             g = F(g)
             if g < dom[0] or g > dom[-1]:
                 r.append(F(0)); continue
-            i = 0
-            while i + 2 < len(dom) and dom[i + 1] < g:
-                i += 1
+            i = min(bisect_left(dom, g, 1) - 1, len(dom) - 2)      # the first interval [dom[i], dom[i+1]] that contains g
             r.append(y[i] + (y[i + 1] - y[i]) * (g - dom[i]) / (dom[i + 1] - dom[i]))
         out.append(r)
     return out
@@ -134,7 +159,10 @@ def run(R):
               "implementation's answers (system_capture(x) = capture(sum_k x_k source_k, domain=grid), A = capture of the single sources, both "
               "relative captures = K(Q+baseline), relative capture of the adapting background = 1) and correspondence of A, captures, relative "
               "captures and adapted K with the exact model integrating the exactly (rational, piecewise-linear, zero outside the measured range) "
-              "resampled filters and spectra over the common grid reported by the estimator. Non-trivial: >=2 "
+              "resampled filters and spectra over the common grid reported by the estimator. File grids (cases G*): the same with regular grids of "
+              "20-420 points whose values are not dyadic (filters on lo+step*arange(n), step 0.5/1/2/5, or linspace(lo, hi, n); spectra on "
+              "linspace(a, b, m) or a+step*arange(m) with a two-decimal step, starting/ending up to a tenth of the span off the filters' grid): "
+              "the clauses on the implementation's answers in every case, the exact model in every 16th (grids of at most 48 points). Non-trivial: >=2 "
               "sources, K not scalar or baseline non-zero, distinct rows.")
     RT = 1e-10
     todo = []
@@ -284,19 +312,34 @@ def run(R):
     # the correspondence compares A and the captures with the exact model integrating the exactly resampled (piecewise-linear,
     # zero outside the measured range) filters and spectra over the common grid the estimator reports (`sources_domain`).
     nsd = 40 if R.tier == "quick" else 800
+    # cases G*: the same on grids as they come out of files (regular, tens to hundreds of points, not dyadic: np.arange(300, 701, 1.) for
+    # the filters, np.linspace(300, 720, 97) for the LEDs): the property's clauses on the implementation's answers in all of them, the
+    # exact model in every 16th (short grids)
+    nfg = 128 if R.tier == "quick" else 1600
     sdcases = []
-    for kd in range(nsd):
-        kname = "D%d" % kd
+    for kd in range(nsd + nfg):
+        filegrid = kd >= nsd
+        kname = ("G%d" % (kd - nsd)) if filegrid else ("D%d" % kd)
         if not R.want(kname):
             continue
-        rng = R.rng(3, kd)
-        explicit_step = bool(rng.integers(10) == 0)
-        nf, ns, nd, dom, dkind, filt, src = gen_system(rng, dkind=("step" if explicit_step else "array"))
-        filt = filt + 0.0625        # strictly positive filters: the adapting background excites every receptor on any common range
+        rng = R.rng(4, kd - nsd) if filegrid else R.rng(3, kd)
+        exact = (not filegrid) or (kd - nsd) % 16 == 0
+        explicit_step = bool(rng.integers(10) == 0) and not filegrid
+        if filegrid:
+            nf, ns = int(rng.integers(2, 6)), int(rng.integers(1, 9))
+            skind, dom, sdom = gen_file_grids(rng, short=exact)
+            nd, dkind = len(dom), "array"
+            filt = dyadic(rng, 0, 2, 4, size=(nf, nd)) + 0.0625
+            R.count("file-grid:exact model %s" % ("yes (<=48 points)" if exact else "no (clauses on the implementation's answers)"))
+            R.count("file-grid:points filters %s, spectra %s" % tuple("<=48" if v <= 48 else ("<=150" if v <= 150 else "<=420") for v in (nd, len(sdom))))
+        else:
+            nf, ns, nd, dom, dkind, filt, src = gen_system(rng, dkind=("step" if explicit_step else "array"))
+            filt = filt + 0.0625        # strictly positive filters: the adapting background excites every receptor on any common range
         if explicit_step:
             skind, sdom = "step-explicit", dom
         else:
-            skind, sdom = gen_signal_domain(rng, dom)
+            if not filegrid:
+                skind, sdom = gen_signal_domain(rng, dom)
             src = dyadic(rng, 0, 2, 4, size=(ns, len(sdom)))
             src[np.arange(ns), rng.integers(0, len(sdom), size=ns)] += 0.5
         nds = nd if explicit_step else len(sdom)
@@ -308,7 +351,7 @@ def run(R):
         bgspec = dyadic(rng, 0.125, 2, 3, size=nds)
         add_baseline = bool(rng.integers(4) > 0)
         c = dict(k=kname, nf=nf, ns=ns, nd=nd, domain_kind=dkind, dom=dom, signal_domain_kind=skind, signal_domain=sdom, K_kind=str(kk), K=K,
-                 baseline_kind=str(bk), baseline=base, filters=filt, sources=src, X=X, bg_spec=bgspec, add_baseline=add_baseline)
+                 baseline_kind=str(bk), baseline=base, filters=filt, sources=src, X=X, bg_spec=bgspec, add_baseline=add_baseline, _exact=exact)
         R.count("signal-domain:%s" % skind)
         for key in ("K_kind", "baseline_kind"):
             R.count("signal-domain:%s:%s" % (key, c[key]))
@@ -351,7 +394,10 @@ def run(R):
                     out["K_bg"] = np.array(est.K, dtype=float)
                 else:
                     out[name] = np.asarray(v, dtype=float)
-        if st == "ok":
+        if st == "ok" and not np.isscalar(out["grid"]):
+            G = out["grid"]
+            R.count("signal-domain:%s: common grid has %s points" % ("file grids" if filegrid else "small grids", "<=48" if len(G) <= 48 else ("<=150" if len(G) <= 150 else ">150")))
+        if st == "ok" and exact:
             G = out["grid"]
             if np.isscalar(G):
                 Fi, Si, Mi, Bi = filt, src, mix, [bgspec]
@@ -366,7 +412,7 @@ def run(R):
         sdcases.append((c, st, out, kd))
     R.driver.run()
     for c, st, out, kd in sdcases:
-        if st != "ok":
+        if st != "ok" or not c["_exact"]:
             continue
         c["_A"] = R.driver.get("Da%d" % kd).mat()
         for i, x in enumerate(c["X"]):
@@ -409,7 +455,7 @@ def run(R):
         R.driver.ask("ks%d" % k, "adapt", int(c["add_baseline"]), vs(basev), vs(c["_qbx"]))
         R.driver.ask("kb%d" % k, "adapt", int(c["add_baseline"]), vs(basev), vs(c["_qbs"]))
     for c, st, out, kd in sdcases:
-        if st != "ok":
+        if st != "ok" or not c["_exact"]:
             continue
         basev = np.atleast_1d(c["baseline"])
         c["_Q"] = [R.driver.get("Ds%d_%d" % (kd, i)).vec() for i in range(len(c["X"]))]
@@ -583,7 +629,7 @@ def run(R):
         nontriv = None
         if ns >= 2 and c["signal_domain_kind"] not in ("equal", "step-explicit"):
             nontriv = (c["k"], c["filters"].tobytes(), c["sources"].tobytes(), c["signal_domain"].tobytes(), X.tobytes())
-        R.case(pub, nontriv, sample=(nontriv is not None and kd < 2))
+        R.case(pub, nontriv, sample=(nontriv is not None and (kd < 2 or kd == nsd)))
         sigt = "C02:signal-domain:%%s:K=%s:baseline=%s" % (c["K_kind"], c["baseline_kind"])
         if st != "ok":
             R.failB(dict(pub, impl_error=out), "estimator raised %s with spectra on their own grid (%s): %s" % (st, c["signal_domain_kind"], out), sigt % ("raises:" + st))
@@ -622,6 +668,7 @@ def run(R):
             # adapted to the background (baseline included): relative capture of that background is 1
             if c["add_baseline"] and not np.allclose(out["rel_bg"].ravel(), 1.0, rtol=0, atol=1e-9):
                 bad.append(("adapt-one-bg", "relative capture of the adapting background (domain=grid) is %s, not 1" % out["rel_bg"].ravel().tolist()))
+        if not bad and c["_exact"]:
             # -- correspondence with the exact model over the common grid ------------------------------------------------
             A = c["_A"]; Q = c["_Q"]; Mix = R.driver.get("Dm%d" % kd).mat()
             for j in range(nf):
